@@ -43,6 +43,7 @@ class OsuToSM(ConvertBase):
         sms.sample_length = 10
         sms.offset = 0.0
 
+        sm.description = osu.version
         sm.chart_type = SMMapChartTypes.get_type(osu.stack().column.max() + 1)
 
         if raise_bad_mode and not sm.chart_type:
